@@ -2252,17 +2252,41 @@ package sdf
 //@   let sh = sin(theta/2)
 //@   let ch = cos(theta/2)
 //@   let lb = v0.Add(v1).Length()
+//@   let rr = v.radius
+//@   focus requires path-int
+//@   assert [edges-differ-from-the-vertex] r ==> dp.Length2() > 0 && dn.Length2() > 0
 //@   assert [edges-have-length] r ==> lp > 0 && ln > 0 && sq(lp) == dp.Length2() && sq(ln) == dn.Length2()
+//@   focus edges-have-length
 //@   assert [unit-direction-to-the-previous-vertex] r ==> v0.Length2() == 1
 //@   assert [unit-direction-to-the-next-vertex] r ==> v1.Length2() == 1
+//@   generalize v0
+//@   generalize v1
+//@   focus unit-direction-to-the-previous-vertex unit-direction-to-the-next-vertex
+//@   assert [lagrange] r ==> sq(ca) + sq(v0.Cross(v1)) == 1
 //@   assert [cosine-of-the-corner-angle] r ==> -1 <= ca && ca <= 1
+//@   focus cosine-of-the-corner-angle
 //@   assert [angle-from-its-cosine] r ==> cos(theta) == ca && 0 <= theta && theta <= PI
-//@   assert [half-angle] r && -1 < ca && ca < 1 ==> sh > 0 && ch > 0 && sq(sh) + sq(ch) == 1 && ca == 1 - 2*sq(sh)
+//@   assert [corner-not-straight-or-folded] r && -1 < ca && ca < 1 ==> 0 < theta && theta < PI
+//@   focus angle-from-its-cosine corner-not-straight-or-folded
+//@   assert [half-angle-in-the-first-quadrant] r && -1 < ca && ca < 1 ==> sh > 0 && ch > 0
+//@   assert [half-angle] r && -1 < ca && ca < 1 ==> sq(sh) + sq(ch) == 1 && ca == 1 - 2*sq(sh)
+//@   focus half-angle-in-the-first-quadrant half-angle unit-direction-to-the-previous-vertex unit-direction-to-the-next-vertex
 //@   assert [bisector-length] r ==> lb >= 0 && sq(lb) == v0.Add(v1).Length2()
-//@   use fillet_circle_touches_both_edges(v0, v1, sh, ch, lb, v.radius)
-//@   ensures [tangent-point-on-the-previous-edge-at-the-given-radius-from-the-centre] r && -1 < ca && ca < 1 ==> p0.Sub(c).Length2() == sq(v.radius)
+//@   assert [bisector-not-zero] r && -1 < ca && ca < 1 ==> lb > 0
+//@   generalize lb
+//@   focus half-angle-in-the-first-quadrant bisector-not-zero
+//@   assert [tangent-length] r && -1 < ca && ca < 1 ==> d1 == rr*ch/sh && d2 == rr/sh
+//@   assert [tangent-point-relative-to-the-vertex] r ==> p0.Sub(v.vertex) == v0.MulScalar(d1)
+//@   assert [centre-relative-to-the-vertex] r && -1 < ca && ca < 1 ==> c.Sub(v.vertex) == v0.Add(v1).MulScalar((rr/sh)/lb)
+//@   generalize d1
+//@   generalize d2
+//@   generalize p0
+//@   generalize c
+//@   focus half-angle-in-the-first-quadrant half-angle unit-direction-to-the-previous-vertex unit-direction-to-the-next-vertex bisector-length bisector-not-zero tangent-length tangent-point-relative-to-the-vertex centre-relative-to-the-vertex
+//@   use fillet_circle_touches_both_edges(v0, v1, sh, ch, lb, rr)
+//@   ensures [tangent-point-on-the-previous-edge-at-the-given-radius-from-the-centre] r && -1 < ca && ca < 1 ==> p0.Sub(c).Length2() == sq(rr)
 //@   ensures [where-the-radius-is-perpendicular-to-that-edge] r && -1 < ca && ca < 1 ==> p0.Sub(c).Dot(v0) == 0
-//@   ensures [and-the-centre-is-as-far-from-the-next-edge-touching-it-at-the-same-tangent-length] r && -1 < ca && ca < 1 ==> v.vertex.Add(v1.MulScalar(d1)).Sub(c).Length2() == sq(v.radius) && v.vertex.Add(v1.MulScalar(d1)).Sub(c).Dot(v1) == 0
+//@   ensures [and-the-centre-is-as-far-from-the-next-edge-touching-it-at-the-same-tangent-length] r && -1 < ca && ca < 1 ==> v.vertex.Add(v1.MulScalar(d1)).Sub(c).Length2() == sq(rr) && v.vertex.Add(v1.MulScalar(d1)).Sub(c).Dot(v1) == 0
 //@ end
 
 //@ func BezierVertex.Mid
